@@ -126,6 +126,24 @@ class Folder:
         if isinstance(node, ast.Subscript):
             base = self.fold(node.value)
             sl = node.slice
+            if isinstance(sl, ast.Tuple) and len(sl.elts) == 2 and not (isinstance(sl.elts[0], ast.Constant) and sl.elts[0].value is Ellipsis) and isinstance(base, list) and base and isinstance(base[0], list):
+                # matrix[r, c] with r, c integers or slices
+                def part(e):
+                    if isinstance(e, ast.Slice):
+                        lo = self.fold(e.lower) if e.lower is not None else None
+                        hi = self.fold(e.upper) if e.upper is not None else None
+                        if e.step is not None or not all(v is None or (isinstance(v, int) and not isinstance(v, bool)) for v in (lo, hi)):
+                            raise Unfoldable("slice")
+                        return slice(lo, hi)
+                    v = self.fold(e)
+                    if isinstance(v, int) and not isinstance(v, bool):
+                        return v
+                    raise Unfoldable("matrix index")
+
+                r, c = part(sl.elts[0]), part(sl.elts[1])
+                rows = base[r] if isinstance(r, slice) else [base[r]]
+                out = [row[c] for row in rows]
+                return out if isinstance(r, slice) else out[0]
             if isinstance(sl, ast.Tuple) and len(sl.elts) == 2 and isinstance(sl.elts[0], ast.Constant) and sl.elts[0].value is Ellipsis:
                 i = self.fold(sl.elts[1])
 
@@ -202,8 +220,20 @@ class Folder:
             if short == "fmod" and len(node.args) == 2:
                 a, b = self.fold(node.args[0]), self.fold(node.args[1])
                 return _ew(lambda x, y: math.fmod(x, y) if isinstance(x, float) or isinstance(y, float) else (x % y if x >= 0 else -((-x) % y)), a, b)
+            if short == "sum" and node.args and any(k.arg == "dim" for k in node.keywords):
+                v = self.fold(node.args[0])
+                d = self.fold(next(k.value for k in node.keywords if k.arg == "dim"))
+                if isinstance(v, list) and v and isinstance(v[0], list) and d in (0, 1, -1, -2):
+                    if d in (1, -1):
+                        return [sum(row) for row in v]
+                    return [sum(row[j] for row in v) for j in range(len(v[0]))]
+                if isinstance(v, list) and d in (0, -1):
+                    return sum(v)
+                raise Unfoldable("sum over an axis")
             if short in ("sum", "prod", "amin", "amax", "argmin", "argmax", "mean") and node.args:
                 v = self.fold(node.args[0])
+                if short == "sum" and isinstance(v, list) and v and isinstance(v[0], list):
+                    return sum(sum(row) for row in v)
                 if isinstance(v, list) and v and not any(isinstance(x, list) for x in v):
                     if short == "sum":
                         return sum(v)
@@ -231,6 +261,11 @@ class Folder:
                     return _ew(lambda x, y: x**y, a, b)
                 except (TypeError, ZeroDivisionError, OverflowError) as exc:
                     raise Unfoldable(str(exc))
+            if short == "bool" and nm == "bool" and node.args:
+                v = self.fold(node.args[0])
+                if isinstance(v, list):
+                    raise Unfoldable("bool of a list")
+                return bool(v)
             if short in ("tensor", "as_tensor", "Tensor", "array", "float", "int") and node.args:
                 return self.fold(node.args[0])
             if short in ("cos", "sin", "sqrt", "exp", "abs") and node.args:
